@@ -160,6 +160,8 @@ pub const fn shl(self, shift: u32) -> (ret__: Self)
     ensures ret__.0 as int == (self.0 as int * p2(shift as nat)) % B()
 //@-
 {
+        // explicit check: without overflow checks (release builds) `self.0 << shift` silently masks the shift amount
+        assert!(shift < Self::BITS, "`shift` within the bit size of the limb");
 //@+
     proof { lemma_u64_shl_mod(self.0, shift); }
 //@-
@@ -189,6 +191,8 @@ pub const fn shr(self, shift: u32) -> (ret__: Self)
     ensures ret__.0 as int == self.0 as int / p2(shift as nat)
 //@-
 {
+        // explicit check: without overflow checks (release builds) `self.0 >> shift` silently masks the shift amount
+        assert!(shift < Self::BITS, "`shift` within the bit size of the limb");
 //@+
     proof { lemma_u64_shr_div(self.0, shift); }
 //@-
